@@ -254,6 +254,16 @@ Theorem C11_proto_truncated_frame_never_succeeds :
 Proof. exact pspec_inc_never_ok. Qed.
 Print Assumptions C11_proto_truncated_frame_never_succeeds.
 
+(* the two specs agree on success: whenever the sequential spec succeeds on a complete frame, the declarative projection
+   (decode the level, keep the numbers declared by both schemas in source order, project message-kind payloads recursively)
+   yields the SAME tree - so C11_proto_fields_exact / C11_proto_numbers_are_intersection_in_source_order describe what the
+   walker outputs for every input it accepts *)
+Theorem C11_proto_spec_success_is_projection :
+  forall d dis fuel fi ti bs be l, bytes_ok bs ->
+  pspec d dis fuel fi ti bs false be = COk l -> pproject d dis fuel fi ti bs = COk l.
+Proof. exact pspec_ok_pproject. Qed.
+Print Assumptions C11_proto_spec_success_is_projection.
+
 (* F{x=7, m={a=10, b="x"}} cut from FU{1:int32, 2:InU{2:string}, 7:string} to itself with DisallowUnknown: the nested
    field 1 is unknown -> the specification demands an error; the unrepaired walker (quirk) drops the inner error *)
 Definition ex_pdefs : pdefs := [ [(1, 5, -1); (2, 11, 1); (7, 9, -1)]; [(2, 9, -1)] ].
